@@ -11,6 +11,9 @@ Ev == Tr[l]
 tvars == <<avars, l, nfft, ndec>>
 RowsIn(rows) == [r \in Rows |-> [c \in Comp |-> [i \in Idx |-> rows[r][c + 1][i + 1]]]]
 MuIn(mu) == [i \in Idx |-> mu[i + 1]]
+PhIn(ph) == [r \in Rows |-> [i \in Idx |-> ph[r][i + 1]]]
+\* phases of a fresh encryption lie within 16 sigma + the FFT error of the phase computation of the embedded grid (and are not exactly on it: there is noise)
+NoiseTol(alog) == 16 * 2^(32 - alog) + 4096
 TInit == AInit /\ l = 1 /\ nfft = 0 /\ ndec = 0
 Consume == l <= Len(Tr) /\ l' = l + 1
 TProg == /\ Ev.e = "Prog" /\ Ev.W = W /\ Ev.NP = NP /\ Ev.KK = KK /\ Ev.LL = LL /\ Ev.BGB = BGB
@@ -28,6 +31,8 @@ TOp == /\ Ev.e = "Op"
             [] Ev.op = "FFTRound"  -> FFTRound /\ Same /\ Ev.off <= FFTTol /\ nfft' = nfft + 1 /\ UNCHANGED ndec     \* (the harness prints the sample that came back and keeps the exact one)
             [] Ev.op = "FFTAddH"   -> FFTAddH /\ RowsIn(Ev.rows) = FFTAddHOf(g) /\ Ev.off <= FFTTol /\ nfft' = nfft + 1 /\ UNCHANGED ndec
             [] Ev.op = "FFTOnlyH"  -> FFTOnlyH /\ RowsIn(Ev.rows) = FFTAddHOf(GZero) /\ Ev.off <= FFTTol /\ nfft' = nfft + 1 /\ UNCHANGED ndec
+            [] Ev.op = "EncPoly"   -> EncPoly(MuIn(Ev.mu), Ev.alog) /\ PhIn(Ev.ph) = PhasesOf(MuIn(Ev.mu)) /\ Ev.off <= NoiseTol(Ev.alog) /\ Ev.off >= 1 /\ UNCHANGED <<nfft, ndec>>
+            [] Ev.op = "EncInt"    -> EncInt(Ev.v, Ev.alog) /\ PhIn(Ev.ph) = PhasesOf(Const(Ev.v)) /\ Ev.off <= NoiseTol(Ev.alog) /\ Ev.off >= 1 /\ UNCHANGED <<nfft, ndec>>
             [] OTHER -> FALSE
 TNext == Consume /\ (TProg \/ TOp)
 TSpec == TInit /\ [][TNext]_tvars
